@@ -14,6 +14,7 @@ import (
 	"pgregory.net/rapid"
 	"verif/harness/core"
 	"verif/harness/gen"
+	"verif/harness/pyref"
 	"verif/harness/ref"
 )
 
@@ -268,6 +269,67 @@ func check(c Case, st *core.Stats) error {
 	return checkFormat(c, st)
 }
 
+// checkDiff: after the hand-written formatter / recogniser, the same case is put to Python's
+// decimal module (libmpdec): str() is the specification's to-scientific-string, Decimal(text)
+// its numeric-string conversion.
+func checkDiff(c Case, st *core.Stats) error {
+	if err := check(c, st); err != nil {
+		return err
+	}
+	switch c.Kind {
+	case "string":
+		if c.X.IsZero() && c.X.Exp < 0 && c.X.Exp >= -2000 {
+			return nil // apd's documented exception: such zeros are written out in plain notation
+		}
+		if c.X.Form >= 2 {
+			return nil // payloads are not modelled
+		}
+		a, err := pyref.Ask("tosci", core.Ctx{P: 9, Emax: 99, Emin: -99, Rounding: "half_even"}, c.X, core.Dec{Coeff: "0"}, 0)
+		if err != nil {
+			core.InfraExit(err.Error())
+		}
+		st.Class("python-differential")
+		if got := c.X.Apd().String(); got != a.S {
+			return fmt.Errorf("String(%v) = %q, Python's decimal prints %q", c.X, got, a.S)
+		}
+	case "parse":
+		// common domain: printable ASCII without the underscore (Python allows digit grouping,
+		// surrounding white space and non-ASCII digits; the specification does not)
+		for i := 0; i < len(c.S); i++ {
+			if ch := c.S[i]; ch <= ' ' || ch >= 0x7f || ch == '_' {
+				return nil
+			}
+		}
+		p := ref.Recognise(c.S)
+		if p.OK && !(within(p.Written) && within(p.Exp) && within(p.Adj)) {
+			return nil // beyond apd's package limits: either outcome is acceptable there
+		}
+		a, err := pyref.AskRaw("parse", c.S)
+		if err != nil {
+			core.InfraExit(err.Error())
+		}
+		st.Class("python-differential")
+		d, _, perr := apd.NewFromString(c.S)
+		if (perr == nil) != (a.S != "<invalid>") {
+			return fmt.Errorf("NewFromString(%q): err=%v, but Python's decimal gives %s", c.S, perr, a.S)
+		}
+		if perr == nil {
+			v, err := pyref.Parse(a.S)
+			if err != nil {
+				core.InfraExit(err.Error())
+			}
+			same := int8(d.Form) == v.Form && d.Negative == v.Neg
+			if same && v.Form == 0 {
+				same = d.Coeff.MathBigInt().Cmp(v.Coeff) == 0 && int64(d.Exponent) == v.Exp
+			}
+			if !same {
+				return fmt.Errorf("NewFromString(%q) = %s, Python's decimal reads %s", c.S, core.Show(d), a.S)
+			}
+		}
+	}
+	return nil
+}
+
 type entry struct {
 	name string
 	f    func(s string) (d *apd.Decimal, returned bool, err error)
@@ -431,5 +493,5 @@ func checkFormat(c Case, st *core.Stats) error {
 	return nil
 }
 
-func TestC14(t *testing.T)       { core.Run(t, "C14", genCase, check) }
-func TestC14Replay(t *testing.T) { core.Replay(t, "C14", check) }
+func TestC14(t *testing.T)       { core.Run(t, "C14", genCase, checkDiff) }
+func TestC14Replay(t *testing.T) { core.Replay(t, "C14", checkDiff) }
